@@ -23,7 +23,7 @@ import (
 //	            as the processes of one definitions, fresh/reused builder, AutoLayout(default)
 //	ext/*       sequences of length <= 2 over 26 symbols (all 13 ActivityInterface implementers) that contain
 //	            at least one of Transaction/AdHocSubProcess/Activity (accepted by AddActivity's signature
-//	            but not stored by its type switch): 282 sequences x {no layout, default layout}
+//	            but not stored by its type switch): 282 sequences x {no layout, default layout} (thorough: x {1,2,3 processes})
 //	reuse/*     Out() twice / continued use of both builders after Out(): earlier results stay intact
 //	layout/*    3^5 (thorough 5^5) AutoLayoutConfig grid x the 200 smallest and 50 largest definitions of
 //	            the universe {sequences over {UserTask#, SubProcess} of length <= 8 (12)} x {1,2,3 processes}
@@ -183,9 +183,9 @@ func Plains(tier string) []*rep.Plain {
 		}, 6))
 	}
 	if thorough {
-		for _, first := range full {
+		for fi, first := range full { // part i = sequences whose first symbol is full[i]
 			f := first
-			out = append(out, seqPlain("full/len3/first="+f.String(), withPrefix(full, 3, []Sym{f}), 16))
+			out = append(out, seqPlain(fmt.Sprintf("full/len3/part%02d", fi), withPrefix(full, 3, []Sym{f}), 16))
 		}
 	}
 
@@ -214,7 +214,8 @@ func Plains(tier string) []*rep.Plain {
 				for b := 0; b < bits; b++ {
 					prefix[b] = ab.alpha[(pidx>>(bits-1-b))&1]
 				}
-				out = append(out, seqPlain(fmt.Sprintf("%s/len%d/prefix=%s", ab.name, n, seqString(prefix)), withPrefix(ab.alpha, n, prefix), 512*n/100+1))
+				// part i = sequences whose first n-9 symbols spell i in binary over the alphabet
+				out = append(out, seqPlain(fmt.Sprintf("%s/len%d/part%d", ab.name, n, pidx), withPrefix(ab.alpha, n, prefix), 512*n/100+1))
 			}
 		}
 	}
@@ -386,12 +387,15 @@ func reuseCase(r *rep.Report, s []Sym, lay bool, t *tally) {
 	b1, b2, b3 := &Built{}, &Built{}, &Built{}
 	where := ""
 	add := func(b *Built, pi int, seq []Sym) {
-		var ids []string
+		var ids, want []string
 		var types []int
 		for j, sym := range seq {
 			act := newAct(sym.Type)
 			if sym.Preset {
 				act.SetId(schema.NewStringP(presetID(pi, j)))
+				want = append(want, presetID(pi, j))
+			} else {
+				want = append(want, "")
 			}
 			where = "ProcessBuilder.AddActivity"
 			pb.AddActivity(act)
@@ -406,6 +410,7 @@ func reuseCase(r *rep.Report, s []Sym, lay bool, t *tally) {
 		}
 		b.Acts = append(b.Acts, ids)
 		b.Types = append(b.Types, types)
+		b.Want = append(b.Want, want)
 		where = "ProcessBuilder.Out"
 		p := pb.Out()
 		where = "DefinitionBuilder.AddProcess"
